@@ -96,7 +96,7 @@ Local Open Scope Z_scope.
 (* ------------------------------------------------------------------------------------------------------------- *)
 Lemma k_done_step_ok i v : src_done_step_ok i v = i && v.            Proof. reflexivity. Qed.
 Lemma k_done_stop c s : src_done_stop c s = c || negb s.              Proof. reflexivity. Qed.
-Lemma k_done_status c : src_done_status c = if c then ST_CONVERGED else ST_FAILED. Proof. reflexivity. Qed.
+Lemma k_done_status c v : src_done_status c v = if c && v then ST_CONVERGED else ST_FAILED. Proof. reflexivity. Qed.
 Lemma k_done_ret_stop : src_done_ret_stop = true.                     Proof. reflexivity. Qed.
 Lemma k_done_ret_go : src_done_ret_go = false.                        Proof. reflexivity. Qed.
 Lemma k_vt_loop it : src_vt_loop it = (it >? 0).                      Proof. reflexivity. Qed.
@@ -126,7 +126,7 @@ Proof. reflexivity. Qed.
 Lemma done_step_spec s fc gc i c :
   done_step s fc gc i c =
   if c || negb (i && valid s)
-  then (set_status (set_calls s fc gc) (if c then ST_CONVERGED else ST_FAILED), true)
+  then (set_status (set_calls s fc gc) (if c && valid s then ST_CONVERGED else ST_FAILED), true)
   else (set_calls s fc gc, false).
 Proof. reflexivity. Qed.
 
@@ -308,7 +308,7 @@ Definition status_ok (z : Z) : Prop := z = ST_MAX_ITERS \/ z = ST_CONVERGED \/ z
 Lemma step_status w o :
   sstatus (wst (fst (step w o))) = sstatus (wst w) \/
   (exists i c, o = ODone i c /\ snd (step w o) = true /\ (c || negb (i && valid (wst w))) = true /\
-               sstatus (wst (fst (step w o))) = if c then ST_CONVERGED else ST_FAILED).
+               sstatus (wst (fst (step w o))) = if c && valid (wst w) then ST_CONVERGED else ST_FAILED).
 Proof.
   destruct o as [g| |x g f|x g f|x f|i c]; simpl; auto;
     try (destruct g; simpl; auto; fail);
@@ -322,7 +322,7 @@ Proof.
   induction ops as [|o ops IH]; intros w H; [exact H|].
   rewrite run_cons. apply IH.
   destruct (step_status w o) as [E|(i & c & _ & _ & _ & E)]; rewrite E; auto.
-  unfold status_ok. destruct c; auto.
+  unfold status_ok. destruct (c && valid (wst w)); auto.
 Qed.
 
 Lemma run_converged ops : forall w,
@@ -335,22 +335,18 @@ Proof.
   - destruct c.
     + exists i. left. auto.
     + destruct (IH (fst (step w o))) as [j Hj]; auto.
-      * rewrite E. discriminate.
+      * rewrite E. simpl. discriminate.
       * exists j. right. exact Hj.
 Qed.
 
 Lemma run_failed ops : forall w,
-  sstatus (wst w) <> ST_FAILED -> sstatus (wst (run w ops)) = ST_FAILED -> exists i, In (ODone i false) ops.
+  sstatus (wst w) <> ST_FAILED -> sstatus (wst (run w ops)) = ST_FAILED -> exists i c, In (ODone i c) ops.
 Proof.
   induction ops as [|o ops IH]; intros w N H; [contradiction|].
   rewrite run_cons in H.
   destruct (step_status w o) as [E|(i & c & Eo & _ & _ & E)].
-  - destruct (IH _ ltac:(rewrite E; exact N) H) as [i Hi]. exists i. right. exact Hi.
-  - destruct c.
-    + destruct (IH (fst (step w o))) as [j Hj]; auto.
-      * rewrite E. discriminate.
-      * exists j. right. exact Hj.
-    + exists i. left. auto.
+  - destruct (IH _ ltac:(rewrite E; exact N) H) as (i & c & Hi). exists i, c. right. exact Hi.
+  - exists i, c. left. auto.
 Qed.
 
 (* done() stops exactly when converged or the step is not ok, and reports which *)
@@ -358,13 +354,17 @@ Lemma done_decision s fc gc i c :
   snd (done_step s fc gc i c) = c || negb (i && valid s) /\
   (snd (done_step s fc gc i c) = false -> sstatus (fst (done_step s fc gc i c)) = sstatus s /\ valid s = true /\ i = true /\ c = false) /\
   (snd (done_step s fc gc i c) = true ->
-     sstatus (fst (done_step s fc gc i c)) = if c then ST_CONVERGED else ST_FAILED) /\
+     sstatus (fst (done_step s fc gc i c)) = if c && valid s then ST_CONVERGED else ST_FAILED) /\
   sfcalls (fst (done_step s fc gc i c)) = fc /\ sgcalls (fst (done_step s fc gc i c)) = gc /\
   sx (fst (done_step s fc gc i c)) = sx s /\ sfx (fst (done_step s fc gc i c)) = sfx s /\
   sgx (fst (done_step s fc gc i c)) = sgx s.
 Proof.
   rewrite done_step_spec. destruct c, i, (valid s) eqn:V; simpl; repeat split; auto; discriminate.
 Qed.
+
+Lemma done_ref_spec s fc gc i c :
+  done_ref s i c = (snd (done_step s fc gc i c), sstatus (fst (done_step s fc gc i c))).
+Proof. rewrite done_step_spec. unfold done_ref. destruct (c || negb (i && valid s)); reflexivity. Qed.
 
 (* --- history book-keeping ------------------------------------------------------------------------------------- *)
 Definition n_better (ops : list op) : nat :=
@@ -399,15 +399,6 @@ Qed.
 (* ------------------------------------------------------------------------------------------------------------- *)
 (* 4. value_test                                                                                                 *)
 (* ------------------------------------------------------------------------------------------------------------- *)
-(* position (0 = newest) and content of the most recent recorded improvement *)
-Fixpoint first_impr (h : list (PrimFloat.float * PrimFloat.float)) : option (nat * (PrimFloat.float * PrimFloat.float)) :=
-  match h with
-  | [] => None
-  | (df, dx) :: rest =>
-    if PrimFloat.ltb PrimFloat.zero df then Some (O, (df, dx))
-    else match first_impr rest with Some (k, e) => Some (S k, e) | None => None end
-  end.
-
 Lemma vt_scan_spec h : forall it ii dd, it = Z.of_nat (length h) ->
   vt_scan h it ii dd =
   match first_impr h with
@@ -426,14 +417,9 @@ Proof.
     f_equal. lia.
 Qed.
 
-Lemma value_test_spec s p :
-  value_test s p =
-  match first_impr (shist s) with
-  | None => if Z.of_nat (length (shist s)) >=? p then PrimFloat.zero else f_dmax
-  | Some (k, (df, dx)) => if Z.of_nat k <? p then fmax df dx else PrimFloat.zero
-  end.
+Lemma value_test_spec s p : value_test s p = value_test_ref s p.
 Proof.
-  unfold value_test.
+  unfold value_test, value_test_ref.
   rewrite (vt_scan_spec (shist s) _ _ _ eq_refl).
   set (n := Z.of_nat (length (shist s))).
   destruct (first_impr (shist s)) as [[k [df dx]]|].
@@ -465,7 +451,7 @@ Qed.
 (* ------------------------------------------------------------------------------------------------------------- *)
 Lemma event_ok_spec e : event_ok e = true ->
   ev_ret e = ev_conv e || negb (ev_iter_ok e && valid (ev_s e)) /\
-  ev_status' e = (if ev_ret e then (if ev_conv e then ST_CONVERGED else ST_FAILED) else sstatus (ev_s e)) /\
+  ev_status' e = (if ev_ret e then (if ev_conv e && valid (ev_s e) then ST_CONVERGED else ST_FAILED) else sstatus (ev_s e)) /\
   ev_fcalls' e = ev_fc e /\ ev_gcalls' e = ev_gc e /\ ev_same e = true.
 Proof.
   unfold event_ok.
@@ -549,9 +535,10 @@ Qed.
 Lemma accept_status k eps evs r : accept k eps evs r = true ->
   status_ok (sstatus r) /\
   (sstatus r = ST_CONVERGED ->
-     exists e, In e evs /\ same_state r (ev_after e) = true /\ ev_conv e = true /\ ev_ret e = true) /\
+     exists e, In e evs /\ same_state r (ev_after e) = true /\ ev_conv e = true /\ ev_ret e = true /\
+               valid (ev_s e) = true) /\
   (sstatus r = ST_FAILED ->
-     exists e, In e evs /\ same_state r (ev_after e) = true /\ ev_conv e = false /\
+     exists e, In e evs /\ same_state r (ev_after e) = true /\
                (ev_iter_ok e = false \/ valid (ev_s e) = false)).
 Proof.
   intros H. pose proof (accept_returned _ _ _ _ H) as R.
@@ -561,29 +548,48 @@ Proof.
   - destruct (All e I) as (Ok & St & _). destruct (event_ok_spec e Ok) as (Rt & St' & _).
     destruct (same_state_status _ _ S) as (Es & _). simpl in Es. rewrite St' in Es.
     destruct (ev_ret e) eqn:Re.
-    + destruct (ev_conv e) eqn:Ce.
+    + destruct (ev_conv e) eqn:Ce; destruct (valid (ev_s e)) eqn:Ve; simpl in Es.
       * split; [right; left; exact Es|]. split; [intros _; exists e; auto|].
         intros F. rewrite Es in F. discriminate.
       * split; [right; right; exact Es|]. split; [intros F; rewrite Es in F; discriminate|].
+        intros _. exists e. auto.
+      * split; [right; right; exact Es|]. split; [intros F; rewrite Es in F; discriminate|].
         intros _. exists e. repeat split; auto.
-        simpl in Rt. symmetry in Rt. apply negb_true_iff, andb_false_iff in Rt. exact Rt.
+        simpl in Rt. symmetry in Rt. apply negb_true_iff, andb_false_iff in Rt. destruct Rt; auto. discriminate.
+      * split; [right; right; exact Es|]. split; [intros F; rewrite Es in F; discriminate|].
+        intros _. exists e. auto.
     + rewrite St in Es. split; [left; exact Es|]. split; intros F; rewrite Es in F; discriminate.
   - split; [left; exact S|]. split; intros F; rewrite S in F; discriminate.
 Qed.
 
+Lemma all_fin_no_nan l : all_fin l = true -> vnan l = false.
+Proof.
+  induction l as [|v l IH]; simpl; [reflexivity|].
+  rewrite andb_true_iff. intros [F R]. rewrite (IH R), orb_false_r.
+  unfold ffin, PrimFloat.is_finite in F. apply negb_true_iff, orb_false_iff in F. tauto.
+Qed.
+
+Lemma valid_parts s : valid s = true ->
+  ffin (sfx s) = true /\ all_fin (sx s) = true /\ all_fin (sgx s) = true /\ scfin s = true.
+Proof. unfold valid. rewrite !andb_true_iff. tauto. Qed.
+
 (* C01: the converged flag of a line-search trace is the recomputed criterion *)
 Lemma accept_truthful k eps evs r : accept k eps evs r = true -> is_ls k = true -> sstatus r = ST_CONVERGED ->
-  exists e, In e evs /\ same_state r (ev_after e) = true /\ ev_conv e = true /\
-            (vnan (sgx (ev_s e)) = false -> PrimFloat.ltb (gradient_test (ev_s e)) eps = true).
+  exists e, In e evs /\ same_state r (ev_after e) = true /\ ev_conv e = true /\ valid (ev_s e) = true /\
+            PrimFloat.ltb (gradient_test (ev_s e)) eps = true.
 Proof.
   intros H L S. destruct (accept_status _ _ _ _ H) as (_ & C & _).
-  destruct (C S) as (e & I & Sm & Cv & _).
+  destruct (C S) as (e & I & Sm & Cv & _ & Vl).
   unfold accept in H. rewrite !andb_true_iff in H. destruct H as ((_ & HE) & _).
   pose proof (accept_events_all _ _ _ _ HE eq_refl) as All. rewrite Forall_forall in All.
   destruct (All e I) as (_ & _ & Fl). specialize (Fl L). unfold ls_flag_ok in Fl.
-  exists e. repeat split; auto. intros NN. rewrite NN, Cv in Fl. simpl in Fl. destruct (PrimFloat.ltb (gradient_test (ev_s e)) eps); auto.
+  exists e. repeat split; auto.
+  destruct (valid_parts _ Vl) as (_ & _ & G & _).
+  rewrite (all_fin_no_nan _ G), Cv in Fl. simpl in Fl.
+  destruct (PrimFloat.ltb (gradient_test (ev_s e)) eps); auto.
 Qed.
 
+(* after the fix of solver_t::done: a status other than `failed` means a valid snapshot (tight kinds) *)
 (* line-search solvers other than gd (`cstate.valid() ? cstate : pstate`): whenever the first snapshot is valid
    the returned state is the exit snapshot of a VALID event, whatever the status *)
 Lemma accept_ls_valid eps evs r : accept KLs eps evs r = true ->
@@ -626,7 +632,7 @@ Proof.
   assert (Val : forall e, In e evs -> same_state r (ev_after e) = true -> valid (ev_s e) = true).
   { intros e I Sm. destruct (All e I) as (Ok & St & _). destruct (event_ok_spec e Ok) as (Rt & St' & _).
     destruct (same_state_status _ _ Sm) as (Es & _). simpl in Es. rewrite St', S in Es.
-    destruct (ev_ret e) eqn:Re; [destruct (ev_conv e); discriminate|].
+    destruct (ev_ret e) eqn:Re; [destruct (ev_conv e && valid (ev_s e)); discriminate|].
     symmetry in Rt. apply orb_false_iff in Rt. destruct Rt as (_ & Rt).
     apply negb_false_iff, andb_true_iff in Rt. tauto. }
   unfold accept_return in HR.
@@ -639,6 +645,17 @@ Proof.
       destruct Ip as [Ip|(pe' & P1 & P2 & _)]; [discriminate|]. inversion P1; subst. exists pe'. auto.
     + exists l. auto.
   - exfalso. apply (last2_nonempty evs None); auto.
+Qed.
+
+(* the clause of the property: unless the status is `failed`, the returned state is a valid snapshot *)
+Lemma accept_not_failed_valid k eps evs r : accept k eps evs r = true -> k <> KLoose -> evs <> [] ->
+  sstatus r <> ST_FAILED ->
+  exists e, In e evs /\ same_state r (ev_after e) = true /\ valid (ev_s e) = true.
+Proof.
+  intros H NK NE NF.
+  destruct (accept_status _ _ _ _ H) as (SO & C & _).
+  destruct SO as [S|[S|S]]; [|destruct (C S) as (e & I & Sm & _ & _ & V); exists e; auto|contradiction].
+  eapply accept_go_on_valid; eauto.
 Qed.
 
 (* ------------------------------------------------------------------------------------------------------------- *)
